@@ -35,8 +35,12 @@ func pairClass(sc *scenario, j int) string {
 	oj := optTuples[sc.Subs[j].Opt]
 	cls := transportClass(oj)
 	same := false
+	who := "canceller"
 	for i, s := range sc.Subs {
-		if i != j && s.Cancel && optTuples[s.Opt].handshake() == oj.handshake() {
+		if i != j && s.Deadline > 0 {
+			who = "subscriber whose deadline expires"
+		}
+		if i != j && s.ends() && optTuples[s.Opt].handshake() == oj.handshake() {
 			same = true
 		}
 	}
@@ -44,9 +48,9 @@ func pairClass(sc *scenario, j int) string {
 		return cls
 	}
 	if same {
-		return cls + ", canceller has the same connection key"
+		return cls + ", " + who + " has the same connection key"
 	}
-	return cls + ", canceller has a different connection key"
+	return cls + ", " + who + " has a different connection key"
 }
 
 // expectedFull is what a subscriber receives when nothing goes wrong: its script
@@ -148,6 +152,9 @@ func judge(in *instance, twin map[int]map[string]bool) (string, []finding, map[s
 			allGone = false
 		}
 
+		if len(sc.Frames) > 0 {
+			continue // hand-built frames: judged by judgeFrames
+		}
 		// -- routing: own messages only, in upstream order, only what was sent, nothing after the terminal frame
 		st.mu.Lock()
 		lastN := -1
@@ -207,7 +214,7 @@ func judge(in *instance, twin map[int]map[string]bool) (string, []finding, map[s
 
 		want := expectedFull(i, st.spec.Script)
 		switch {
-		case st.spec.Cancel:
+		case st.spec.ends():
 			// its own cancellation may end it anywhere: only the routing checks above
 		case twin != nil:
 			// differential non-interference
@@ -322,10 +329,10 @@ func judge(in *instance, twin map[int]map[string]bool) (string, []finding, map[s
 			// a never-cancelled subscriber of a cancel scenario is judged by the differential clause
 			judgedElsewhere := false
 			for _, st := range in.subs {
-				if "sub"+st.spec.Name == name && !st.spec.Cancel && (twin != nil || sc.faulty()) {
+				if "sub"+st.spec.Name == name && !st.spec.ends() && (twin != nil || sc.faulty()) {
 					judgedElsewhere = true
 				}
-				if "sub"+st.spec.Name == name && !st.spec.Cancel && twin == nil && !sc.faulty() {
+				if "sub"+st.spec.Name == name && !st.spec.ends() && twin == nil && !sc.faulty() {
 					judgedElsewhere = true // reported by the exactness clause above
 				}
 			}
